@@ -1,6 +1,6 @@
 //! C15 — parser combinators implement exact three-way choice semantics.
 //!
-//! E-enum, complete: every program of up to 3 type-preserving combinators followed by an optional
+//! E-enum, complete: every program of up to 3 (quick) / 5 (thorough) type-preserving combinators followed by an optional
 //! terminal (type-changing) combinator, applied to every initial case, with every outcome of every
 //! closure. The real `flussab::Parsed` / `ResultExt` methods are executed with instrumented closures
 //! (invocation count + argument seen) and compared with a reference interpreter of the three-valued
@@ -537,10 +537,12 @@ fn index_of(init: &V, prog: &[Instr], term: &Terminal) -> Vec<usize> {
     v
 }
 
-pub fn run(_tier: Tier, report: &mut Report) {
+pub fn run(tier: Tier, report: &mut Report) {
     let ins = all_instrs();
     let ts = all_terminals();
-    let max_len = 3;
+    // the combinators are stateless, so longer chains add no new behaviour in principle; the
+    // thorough tier goes two steps further anyway (state smuggled through a chain would show)
+    let max_len = tier.pick(3, 5);
     let mut programs: Vec<Vec<usize>> = vec![vec![]];
     let mut level: Vec<Vec<usize>> = vec![vec![]];
     for _ in 0..max_len {
@@ -607,4 +609,4 @@ pub fn replay(v: &Value) -> (bool, String) {
     (bad, format!("program {prog:?} then {term:?} on {init:?}\n  real:      {rf:?} calls {rc:?} {p:?}\n  reference: {ef:?} calls {ec:?}"))
 }
 
-pub const RULE: &str = "every program = initial case (Fallthrough/Ok/Err) x up to 3 type-preserving combinators (or_parse x3 alt outcomes, or_always_parse x2, or_give_up+From, and_then x2, and_also x4, and_do x2, map, map_err, err_into, From<Result>) x terminal (none, optional, matches, or_give_up, or_always_parse x2, err_into to a wrapping type, ResultExt::{and_also x4, and_do x2, err_into}); distinct by construction; non-trivial = at least one closure was invoked";
+pub const RULE: &str = "every program = initial case (Fallthrough/Ok/Err) x up to 3 (quick) / 5 (thorough) type-preserving combinators (or_parse x3 alt outcomes, or_always_parse x2, or_give_up+From, and_then x2, and_also x4, and_do x2, map, map_err, err_into, From<Result>) x terminal (none, optional, matches, or_give_up, or_always_parse x2, err_into to a wrapping type, ResultExt::{and_also x4, and_do x2, err_into}); distinct by construction; non-trivial = at least one closure was invoked";
